@@ -357,15 +357,17 @@ func (l *Ledger) applyIn(f *Frame) {
 						// client has neither ended nor reset them are half-closed: they
 						// count (RFC 7540 5.1.2) but get their own kind.
 						dangling := 0
+						var danglingIDs []string
 						for _, id := range l.order {
 							if st := l.streams[id]; !st.Closed && st.OutEnd && !st.InEnd {
 								dangling++
+								danglingIDs = append(danglingIDs, fmt.Sprint(id))
 							}
 						}
 						if uint64(l.openCount-dangling) > uint64(l.maxConcurrent) {
 							l.violate("stream.maxconcurrent", f, "HEADERS opens stream %d: %d streams open (%d of them ended by the peer only) > MAX_CONCURRENT_STREAMS %d in force", f.StreamID, l.openCount, dangling, l.maxConcurrent)
 						} else {
-							l.violate("stream.halfclosed_over_limit", f, "HEADERS opens stream %d: %d streams open > MAX_CONCURRENT_STREAMS %d in force, counting %d stream(s) that the peer ended (END_STREAM) but grpc-go neither ended nor reset", f.StreamID, l.openCount, l.maxConcurrent, dangling)
+							l.violate("stream.halfclosed_over_limit", f, "HEADERS opens stream %d: %d streams open > MAX_CONCURRENT_STREAMS %d in force, counting %d stream(s) that the peer ended (END_STREAM) but grpc-go neither ended nor reset [dangling ids: %s]", f.StreamID, l.openCount, l.maxConcurrent, dangling, strings.Join(danglingIDs, " "))
 						}
 					} else if uint64(l.openCount) == uint64(l.maxConcurrent) {
 						l.stats.StreamsAtLimit++
